@@ -26,6 +26,7 @@ func init() {
 			{Name: "detector-ctx-outside-loop", File: "detector/detector.go", Old: "	for _, d := range detectors {\n		if ctx.Err() != nil {\n			return nil, nil, ctx.Err()\n		}", New: "	if ctx.Err() != nil {\n		return nil, nil, ctx.Err()\n	}\n	for _, d := range detectors {", Rule: "D3-cancel", Site: "detector"},
 			{Name: "image-limit-gt", File: "artifact/image/layerscanning/image/image.go", Old: "if numBytes >= img.config.MaxFileBytes || errors.Is(err, io.EOF) {", New: "if numBytes > img.config.MaxFileBytes || errors.Is(err, io.EOF) {", Rule: "D4-image", Site: "comparison"},
 			{Name: "image-no-limitreader", File: "artifact/image/layerscanning/image/image.go", Old: "io.Copy(f, io.LimitReader(tarReader, img.config.MaxFileBytes))", New: "io.Copy(f, tarReader)", Rule: "D4-image", Site: "LimitReader"},
+			{Name: "inode-counter-reset-per-root", File: "extractor/filesystem/filesystem.go", Old: "	wc.foundInv = make(map[string]bool)\n	return nil\n", New: "	wc.foundInv = make(map[string]bool)\n	wc.inodesVisited = 0\n	return nil\n", Rule: "D1-inodes", Site: "inodesVisited"},
 		},
 		Neutral: handleFileNeutral,
 	})
@@ -41,6 +42,7 @@ func runC10(p *Prog, r *Report) {
 		return
 	}
 	c10Inodes(p, r, e)
+	counterOnlyIncrements(p, r, "D1-inodes", "walkContext", "inodesVisited", "extractor/filesystem", "the inode visit counter is written other than by its increment (e.g. reset for every scan root): the limit stops being a bound on the whole scan — k roots may visit k × MaxInodes inodes and the scan still succeeds")
 	c10Size(p, r, e)
 	c10Cancel(p, r, e)
 	c10Image(p, r)
